@@ -751,6 +751,48 @@ def r05_9(chk, tier):
                     else: chk.fail('R05.9', site, fn['file'], x.get('l'), '%s: cached_events_[name_index_] at line %s is not protected by `name_index_ < column_names_.size()` (nor by a counter that only counts under it): a record with more fields than column names indexes past the cache' % (fn['n'], x.get('l')), None, fn['q'])
     chk.require(n >= 8, 'R05.9: only %d cache accesses found' % n)
 
+def r05_10(chk, tier, units=('jsonpath', 'jmespath')):
+    """Integer division / remainder with a divisor taken from the data."""
+    chk.rule('R05.10', 'integer division in the expression evaluators: every integer `/` or `%` with a run-time divisor is dominated by a test that '
+                       'the divisor is not zero (a filter such as `@.a % 0` must not trap)', floor=2)
+    table = {'jsonpath': ('token_evaluator.hpp', 'jsonpath_selector.hpp', 'jsonpath_parser.hpp'), 'jmespath': ('jmespath.hpp',)}
+    n = 0
+    for unit in units:
+        facts = F.load([unit], tier)
+        if unit not in chk.units: chk.units.append(unit)
+        seen = set()
+        for fn in facts.functions:
+            if fn.get('body') is None or fn.get('dep') or not fn['file'].endswith(table[unit]) or (fn['file'], fn['l']) in seen: continue
+            divs = []
+            for x in A.walk_no_lambda(fn['body']):
+                if x.get('k') in ('BinaryOperator', 'CompoundAssignOperator') and x.get('op') in ('/', '%', '/=', '%=') and A.const(x.get('rhs')) is None:
+                    t = fn['_types'][x['t'] - 1] if x.get('t') else ''
+                    if t in ('double', 'float', 'long double') or not t: continue
+                    divs.append(x)
+            if not divs: continue
+            seen.add((fn['file'], fn['l']))
+            chk.analysed(fn)
+            g = C.CFG(fn['body'])
+            for i, x in enumerate(divs):
+                n += 1
+                nd = g.node_of(x)
+                dtxt = A.text(A.strip(x.get('rhs'), casts=True))
+                # the divisor itself, or the expression a divisor local was initialised from
+                names = {dtxt}
+                dn = A.ref_name(x.get('rhs'))
+                ok = False
+                for a, lab, e in (g.guards(nd) if nd is not None else []):
+                    c = G.comparison(a)
+                    if not c or A.const(c[2]) != 0: continue
+                    lt = A.text(A.strip(c[1], casts=True))
+                    if (lt in names or (dn and A.ref_name(c[1]) == dn)) and ((c[0] == '!=' and lab is True) or (c[0] == '==' and lab is False)): ok = True
+                cls = A.strip_targs(fn.get('cls') or '').split('::')[-1]
+                site = U.site(fn, 'integer %s #%d' % (x.get('op'), i + 1))
+                if ok: chk.ok('R05.10', site, {'class': cls, 'line': x.get('l'), 'divisor': dtxt[:40]})
+                else: chk.fail('R05.10', site, fn['file'], x.get('l'), '%s::%s: integer `%s %s` at line %s with no dominating `!= 0` test of the divisor: a zero in the document (or in the expression) raises SIGFPE' % (
+                    cls, fn['n'], x.get('op'), dtxt[:40], x.get('l')), None, fn['q'])
+    chk.require(n >= 2, 'R05.10: only %d integer divisions found in the evaluators' % n)
+
 def run(chk, tier, only_rule=None):
     chk.explanation = EXPLANATION
     chk.not_decided = NOT_DECIDED
@@ -764,3 +806,4 @@ def run(chk, tier, only_rule=None):
     r05_7(chk, tier)
     r05_8(chk, tier)
     r05_9(chk, tier)
+    r05_10(chk, tier)
